@@ -96,12 +96,16 @@ def with_normalize(line, rng):
     return " ; ".join(out), keep
 
 
-def histories(seed, prop, n, big=False, drop=(), maxvars=5, maxops=30, asc_widen=False):
+def histories(seed, prop, n, big=False, drop=(), maxvars=5, maxops=30, asc_widen=False, rel=False):
+    """n histories; for a relational domain every second one is written in the octagon
+    language (unit coefficients, x-y / x+y constraints, x := y + k assignments), which
+    keeps the states relational for longer than arbitrary linear constraints do"""
     rng = random.Random(seed)
     opts = {"ops": OPS[prop], "maxvars": maxvars, "maxops": maxops, "minops": 4}
+    opts_rel = dict(opts, lang="oct", maxvars=4)
     out = []
-    for _ in range(n):
-        l = sanitize(domhist.gen_history(rng, opts), big, drop)
+    for i in range(n):
+        l = sanitize(domhist.gen_history(rng, opts_rel if (rel and i % 2) else opts), big, drop)
         if prop == "C04":
             l = with_csts_after_leq(l)
         if asc_widen:
